@@ -130,6 +130,10 @@ class Inliner:
                 h.body = self._block(h.body, scope, stack, depth, changed)
         if depth >= MAX_DEPTH:
             return [st]
+        unfolded = self._unfold_context_class(st, scope)
+        if unfolded is not None:
+            changed[0] = True
+            return self._block(unfolded, scope, stack, depth + 1, changed)
         site = None
         for cand in self._sites(st):
             t, r = self._target(cand[0], cand[1], scope)
@@ -146,6 +150,98 @@ class Inliner:
         self.log.append(target.short)
         # helpers called by the helper
         return self._block(expansion, scope, stack + (target.fq,), depth + 1, changed)
+
+    def _unfold_context_class(self, st: ast.stmt, scope: Unit) -> Optional[List[ast.stmt]]:
+        """``async with _Private(a, b): BODY`` where the private library class only stores its constructor arguments, does
+        nothing on entering and holds its clean-up in ``__aexit__``  ->  ``try: BODY finally: <that clean-up>`` with the
+        fields replaced by the arguments (the reverse of "extract the finally block into a context manager")."""
+        if not isinstance(st, ast.AsyncWith) or len(st.items) != 1 or st.items[0].optional_vars is not None:
+            return None
+        cm = st.items[0].context_expr
+        if not isinstance(cm, ast.Call) or cm.keywords or any(isinstance(a, ast.Starred) for a in cm.args):
+            return None
+        func = cm.func.value if isinstance(cm.func, ast.Subscript) else cm.func  # ``Cls[T](...)``
+        if not isinstance(func, ast.Name) or not func.id.startswith("_"):
+            return None
+        r = self.pkg.resolve_global(scope.module, func.id)
+        info = self.pkg.lib_class(r.qual) if r.kind == "lib" else None
+        if info is None:
+            return None
+        init, aenter, aexit = info.methods.get("__init__"), info.methods.get("__aenter__"), info.methods.get("__aexit__")
+        if init is None or aenter is None or aexit is None or aexit.kind != "coroutine" or set(info.methods) - {
+                "__init__", "__aenter__", "__aexit__", "__repr__"}:
+            return None
+        params = init.param_names()
+        if len(params) - 1 != len(cm.args) or not all(isinstance(a, (ast.Name, ast.Attribute)) for a in cm.args):
+            return None
+        # __init__: nothing but ``self.f = p``
+        fields: Dict[str, ast.AST] = {}
+        for s_ in init.node.body:
+            if isinstance(s_, ast.Expr) and isinstance(s_.value, ast.Constant):
+                continue
+            tgt = s_.targets[0] if isinstance(s_, ast.Assign) and len(s_.targets) == 1 else s_.target if isinstance(s_, ast.AnnAssign) else None
+            val = getattr(s_, "value", None)
+            if not (isinstance(tgt, ast.Attribute) and isinstance(tgt.value, ast.Name) and tgt.value.id == params[0]
+                    and isinstance(val, ast.Name) and val.id in params[1:]):
+                return None
+            fields[tgt.attr] = cm.args[params.index(val.id) - 1]
+        # __aenter__: a docstring and ``return None`` / ``pass`` at most
+        for s_ in aenter.node.body:
+            if isinstance(s_, ast.Pass) or (isinstance(s_, ast.Expr) and isinstance(s_.value, ast.Constant)):
+                continue
+            if isinstance(s_, ast.Return) and (s_.value is None or (isinstance(s_.value, ast.Constant) and s_.value.value is None)):
+                continue
+            return None
+        me = aexit.param_names()[0]
+        others = set(aexit.param_names()[1:])
+        body = copy.deepcopy([s_ for s_ in aexit.node.body if not (isinstance(s_, ast.Expr) and isinstance(s_.value, ast.Constant))])
+        # the exception details may not be used, and the exit may not suppress (return nothing but None, at its very end)
+        for s_ in body:
+            for x in ast.walk(s_):
+                if isinstance(x, ast.Name) and x.id in others:
+                    return None
+                if isinstance(x, ast.Return) and x is not body[-1]:
+                    return None
+        if body and isinstance(body[-1], ast.Return):
+            last = body.pop()
+            if not (last.value is None or (isinstance(last.value, ast.Constant) and last.value.value is None)):
+                return None
+        self.counter += 1
+        tag = f"__x{self.counter}"
+        own_locals = {x.id for s_ in body for x in ast.walk(s_) if isinstance(x, ast.Name) and isinstance(x.ctx, ast.Store)}
+
+        class _Subst(ast.NodeTransformer):
+            def visit_Attribute(self_, n):  # noqa: N805
+                self_.generic_visit(n)
+                if isinstance(n.value, ast.Name) and n.value.id == me and n.attr in fields and isinstance(n.ctx, ast.Load):
+                    return ast.copy_location(copy.deepcopy(fields[n.attr]), n)
+                return n
+
+            def visit_Name(self_, n):  # noqa: N805
+                if n.id in own_locals:
+                    return ast.copy_location(ast.Name(id=n.id + tag, ctx=n.ctx), n)
+                return n
+
+        body = [_Subst().visit(s_) for s_ in body]
+        if any(isinstance(x, ast.Name) and x.id == me for s_ in body for x in ast.walk(s_)):
+            return None  # (the object itself is used: not a plain bundle of its arguments)
+        # ``own = self._buffer`` became ``own__x1 = buffer``: a local that only renames an argument is the argument
+        while body and isinstance(body[0], ast.Assign) and len(body[0].targets) == 1 and isinstance(body[0].targets[0], ast.Name) \
+                and isinstance(body[0].value, ast.Name):
+            alias, original = body[0].targets[0].id, body[0].value.id
+            rest = body[1:]
+            if any(isinstance(x, ast.Name) and x.id in (alias, original) and isinstance(x.ctx, (ast.Store, ast.Del))
+                   for s_ in rest for x in ast.walk(s_)):
+                break
+            for s_ in rest:
+                for x in ast.walk(s_):
+                    if isinstance(x, ast.Name) and x.id == alias:
+                        x.id = original
+            body = rest
+        out = ast.copy_location(ast.Try(body=st.body, handlers=[], orelse=[], finalbody=body or [ast.Pass()]), st)
+        ast.fix_missing_locations(out)
+        self.log.append(f"{info.module.short}.{info.name}.__aexit__")
+        return [out]
 
     def _loop_test_as_statements(self, st: ast.stmt, scope: Unit) -> ast.stmt:
         """``while A or await helper(..): body`` (helper inlinable) -> the same loop with the test spelled as
